@@ -29,7 +29,8 @@ MANIFEST = {
             'awaited entity was visibly in a requested state or final (or after '
             'the timeout), flags a call still polling 50 polls later, requires '
             'the returned value to be the actual states and rejects a return '
-            'before every entity reached/passed a requested state.',
+            'before every entity reached/passed a requested state.'
+            "  Second session: the oracle uses its own constant of final states (the repository's rps.FINAL list is mutable shared state which a wait call can corrupt for later calls of the same process).",
     'note': 'bounded-progress restatement of "returns when it should" (3-poll '
             'slack, 50-poll hang threshold); state changes happen between '
             'polls, each state is held for at least one poll; timeout 0 is '
